@@ -62,6 +62,9 @@ func c10TextAlphabet() []wStep {
 		{Text: []string{"APPEND", "x", "ab"}},
 		{Text: []string{"DEL", "x"}},
 		{Text: []string{"EXISTS", "x"}},
+		// flag bits every client can set: 4 marks a request as coming from the log (the engine skips its role check)
+		{Text: []string{"LOCK", "k2", "LOCK_ID", "b1", "FLAG", "4", "TIMEOUT", "0", "EXPRIED", "10"}},
+		{Text: []string{"UNLOCK", "k1", "LOCK_ID", "a1", "FLAG", "5"}},
 		{Tick: 1 * sec},
 	}
 }
@@ -337,7 +340,13 @@ func evalC10(c *Ctx, cs EnumCase) EnumResult {
 				vs = append(vs, explore.Violation{Sig: "C10:leader-state-differs-via-follower", Msg: fmt.Sprintf("sequence %v: leader state after direct traffic [%s], after forwarded traffic [%s]", names, ls, lsf)})
 			}
 			if lsf != fsf {
-				vs = append(vs, explore.Violation{Sig: "C10:follower-diverged", Msg: fmt.Sprintf("sequence %v via follower: leader holds [%s], follower holds [%s]", names, lsf, fsf)})
+				sig := "C10:follower-diverged"
+				for _, st := range kept {
+					if j := strings.Join(st.Text, " "); len(st.Text) > 0 && (strings.Contains(j, " FLAG 4") || strings.Contains(j, " FLAG 5")) {
+						sig = "C10:follower-diverged/client-sets-from-log-flag"
+					}
+				}
+				vs = append(vs, explore.Violation{Sig: sig, Msg: fmt.Sprintf("sequence %v via follower: leader holds [%s], follower holds [%s]", names, lsf, fsf)})
 			}
 		case "held-stream":
 			msg, e := runHeldStream(steps, a.Text)
